@@ -341,6 +341,16 @@ func (x *Exec) execBuiltin(fr *Frame, st *State, name string, cc *ssa.CallCommon
 		} else {
 			s := x.toTerm(args[1], argT(1))
 			n = mkMin(sliceLen(d), sliceLen(s))
+			if x.concrete && isInt(n) && isByte(dt.Elem()) && n.Val.Int64() <= 4096 {
+				// instantiated units: byte-exact copy (memmove: all source bytes are read first)
+				cnt := int(n.Val.Int64())
+				vals := make([]*Term, cnt)
+				for k := range vals {
+					vals[k] = x.byteAt(st, s, k)
+				}
+				x.writeBytes(st, d, vals, pos)
+				return n
+			}
 			x.copyInto(st, dt.Elem(), d, s, n, pos)
 		}
 		return n
@@ -546,4 +556,194 @@ func init() {
 			return nil
 		}
 	}
+}
+
+// ---- crypto primitives (C08): byte-exact models with uninterpreted ciphers ----
+//
+// A block cipher is an uninterpreted function E(block object, k, b0..b_{bs-1}) giving output
+// byte k of the encryption of the input block: every result holds for every cipher and key.
+// xor on bytes is the uninterpreted bxor8 with commutativity built into the constructor.
+
+func isByte(t types.Type) bool {
+	b, ok := t.Underlying().(*types.Basic)
+	return ok && b.Kind() == types.Uint8
+}
+
+func bxor8(a, b *Term) *Term {
+	if a.id > b.id {
+		a, b = b, a
+	}
+	return mkApp("bxor8", sortInt, a, b)
+}
+
+func blockE(self *Term, k int, in []*Term) *Term {
+	args := append([]*Term{self, mkInt(int64(k))}, in...)
+	return mkApp(fmt.Sprintf("blk.E%d", len(in)), sortInt, args...)
+}
+
+func (x *Exec) byteAt(st *State, s *Term, k int) *Term {
+	bt := types.Universe.Lookup("byte").Type()
+	return x.sliceAt(st, s, bt, mkInt(int64(k)))
+}
+
+// overlapOK: the two n-byte windows start at the same place or do not overlap (the standard
+// library panics on inexact overlap).
+func overlapOK(a, b *Term, n *Term) *Term {
+	same := mkAnd(mkEq(sliceRef(a), sliceRef(b)), mkEq(sliceOff(a), sliceOff(b)))
+	disj := mkOr(mkNot(mkEq(sliceRef(a), sliceRef(b))),
+		mkLe(mkAdd(sliceOff(a), n), sliceOff(b)), mkLe(mkAdd(sliceOff(b), n), sliceOff(a)))
+	return mkOr(mkLe(n, mkInt(0)), same, disj)
+}
+
+func (x *Exec) writeBytes(st *State, d *Term, vals []*Term, pos token.Pos) {
+	bt := types.Universe.Lookup("byte").Type()
+	hn, so := x.env.te.elemHeap(bt)
+	if len(vals) > 0 {
+		x.checkWrite(st, hn, sliceRef(d), pos)
+	}
+	h := st.H(hn, so)
+	arr := mkSelect(h, sliceRef(d))
+	for k, v := range vals {
+		arr = mkStore(arr, mkAdd(sliceOff(d), mkInt(int64(k))), v)
+	}
+	st.setH(hn, mkStore(h, sliceRef(d), arr))
+}
+
+func init() {
+	libTable["crypto/subtle.XORBytes"] = func(x *Exec, fr *Frame, st *State, fn *ssa.Function, args []Val, in ssa.Instruction, rt types.Type) Val {
+		d, a, b := x.toTerm(args[0], nil), x.toTerm(args[1], nil), x.toTerm(args[2], nil)
+		n := mkMin(sliceLen(a), sliceLen(b))
+		x.assert(st, "panic", "subtle.XORBytes: dst too short "+x.src(in), mkLe(n, sliceLen(d)), in.Pos(), nil)
+		x.assert(st, "panic", "subtle.XORBytes: inexact overlap "+x.src(in), mkAnd(overlapOK(d, a, n), overlapOK(d, b, n)), in.Pos(), nil)
+		x.unit.Trusted["crypto/subtle.XORBytes (built-in byte-level semantics)"] = true
+		if isInt(n) {
+			cnt := int(n.Val.Int64())
+			vals := make([]*Term, cnt)
+			for k := 0; k < cnt; k++ {
+				vals[k] = bxor8(x.byteAt(st, a, k), x.byteAt(st, b, k))
+			}
+			x.writeBytes(st, d, vals, in.Pos())
+			return n
+		}
+		// symbolic length: dst[0..n) becomes xor of the inputs (quantified), rest unchanged
+		bt := types.Universe.Lookup("byte").Type()
+		hn, so := x.env.te.elemHeap(bt)
+		x.checkWrite(st, hn, sliceRef(d), in.Pos())
+		h := st.H(hn, so)
+		old := mkSelect(h, sliceRef(d))
+		nd := fresh("xor", so.Elem)
+		j := mkBound("j", sortInt)
+		inR := mkAnd(mkLe(sliceOff(d), j), mkLt(j, mkAdd(sliceOff(d), n)))
+		rel := mkSub(j, sliceOff(d))
+		av := mkSelect(mkSelect(h, sliceRef(a)), mkAdd(sliceOff(a), rel))
+		bv := mkSelect(mkSelect(h, sliceRef(b)), mkAdd(sliceOff(b), rel))
+		x.assume(st, mkForall([]*Term{j}, mkEq(mkSelect(nd, j), mkIte(inR, mkApp("bxor8", sortInt, av, bv), mkSelect(old, j)))))
+		st.setH(hn, mkStore(h, sliceRef(d), nd))
+		return n
+	}
+	invokeTable["cipher.Block.BlockSize"] = func(x *Exec, fr *Frame, st *State, fn *ssa.Function, args []Val, in ssa.Instruction, rt types.Type) Val {
+		self := x.toTerm(args[0], nil)
+		r := mkApp("blk.size", sortInt, self)
+		x.assume(st, mkLe(mkInt(1), r))
+		return r
+	}
+	invokeTable["cipher.Block.Encrypt"] = func(x *Exec, fr *Frame, st *State, fn *ssa.Function, args []Val, in ssa.Instruction, rt types.Type) Val {
+		self := x.toTerm(args[0], nil)
+		d, s := x.toTerm(args[1], nil), x.toTerm(args[2], nil)
+		bsT := mkApp("blk.size", sortInt, self)
+		x.unit.Trusted["crypto/cipher.Block.Encrypt: uninterpreted permutation, panics on short blocks / inexact overlap"] = true
+		bs := 0
+		if x.inst != nil && x.inst.BS > 0 {
+			bs = x.inst.BS
+			x.assume(st, mkEq(bsT, mkInt(int64(bs))))
+			bsT = mkInt(int64(bs))
+		}
+		x.assert(st, "panic", "cipher.Block.Encrypt: input not full block "+x.src(in), mkLe(bsT, sliceLen(s)), in.Pos(), nil)
+		x.assert(st, "panic", "cipher.Block.Encrypt: output not full block "+x.src(in), mkLe(bsT, sliceLen(d)), in.Pos(), nil)
+		x.assert(st, "panic", "cipher.Block.Encrypt: inexact overlap "+x.src(in), overlapOK(d, s, bsT), in.Pos(), nil)
+		if bs > 0 {
+			inb := make([]*Term, bs)
+			for k := range inb {
+				inb[k] = x.byteAt(st, s, k)
+			}
+			vals := make([]*Term, bs)
+			for k := range vals {
+				vals[k] = blockE(self, k, inb)
+			}
+			x.writeBytes(st, d, vals, in.Pos())
+			return nil
+		}
+		// block size not fixed: the destination block becomes unknown
+		bt := types.Universe.Lookup("byte").Type()
+		hn, so := x.env.te.elemHeap(bt)
+		x.checkWrite(st, hn, sliceRef(d), in.Pos())
+		h := st.H(hn, so)
+		old := mkSelect(h, sliceRef(d))
+		nd := fresh("blk", so.Elem)
+		j := mkBound("j", sortInt)
+		inR := mkAnd(mkLe(sliceOff(d), j), mkLt(j, mkAdd(sliceOff(d), bsT)))
+		x.assume(st, mkForall([]*Term{j}, mkImp(mkNot(inR), mkEq(mkSelect(nd, j), mkSelect(old, j)))))
+		st.setH(hn, mkStore(h, sliceRef(d), nd))
+		return nil
+	}
+	libTable["golang.org/x/crypto/salsa20.XORKeyStream"] = func(x *Exec, fr *Frame, st *State, fn *ssa.Function, args []Val, in ssa.Instruction, rt types.Type) Val {
+		out, inp, nonce := x.toTerm(args[0], nil), x.toTerm(args[1], nil), x.toTerm(args[2], nil)
+		n := sliceLen(inp)
+		x.unit.Trusted["x/crypto/salsa20.XORKeyStream: uninterpreted keystream of (nonce, key); panics on short output / inexact overlap / bad nonce length"] = true
+		x.assert(st, "panic", "salsa20: output smaller than input "+x.src(in), mkLe(n, sliceLen(out)), in.Pos(), nil)
+		x.assert(st, "panic", "salsa20: inexact overlap "+x.src(in), overlapOK(out, inp, n), in.Pos(), nil)
+		x.assert(st, "panic", "salsa20: nonce must be 8 or 24 bytes "+x.src(in), mkOr(mkEq(sliceLen(nonce), mkInt(8)), mkEq(sliceLen(nonce), mkInt(24))), in.Pos(), nil)
+		keyp := x.asPtr(args[3], fn.Signature.Params().At(3).Type())
+		key, _ := x.loadTerm(st, keyp)
+		if isInt(n) && isInt(sliceLen(nonce)) {
+			nb := make([]*Term, int(sliceLen(nonce).Val.Int64()))
+			for k := range nb {
+				nb[k] = x.byteAt(st, nonce, k)
+			}
+			cnt := int(n.Val.Int64())
+			vals := make([]*Term, cnt)
+			for k := 0; k < cnt; k++ {
+				ks := mkApp(fmt.Sprintf("salsa.KS%d", len(nb)), sortInt, append([]*Term{key, mkInt(int64(k))}, nb...)...)
+				vals[k] = bxor8(x.byteAt(st, inp, k), ks)
+			}
+			x.writeBytes(st, out, vals, in.Pos())
+			return nil
+		}
+		bt := types.Universe.Lookup("byte").Type()
+		hn, so := x.env.te.elemHeap(bt)
+		x.checkWrite(st, hn, sliceRef(out), in.Pos())
+		h := st.H(hn, so)
+		old := mkSelect(h, sliceRef(out))
+		nd := fresh("salsa", so.Elem)
+		j := mkBound("j", sortInt)
+		inR := mkAnd(mkLe(sliceOff(out), j), mkLt(j, mkAdd(sliceOff(out), n)))
+		x.assume(st, mkForall([]*Term{j}, mkImp(mkNot(inR), mkEq(mkSelect(nd, j), mkSelect(old, j)))))
+		st.setH(hn, mkStore(h, sliceRef(out), nd))
+		return nil
+	}
+}
+
+// cfbSpec: textbook full-block CFB with the package's fixed IV, as byte terms.
+// enc: C_i = P_i ^ E(C_{i-1}); dec: P_i = C_i ^ E(C_{i-1}); C_0's predecessor is IV[0:bs); the
+// final partial block is truncated.
+func cfbSpec(self *Term, in []*Term, iv []*Term, bs int, enc bool) []*Term {
+	out := make([]*Term, len(in))
+	prev := iv[:bs]
+	for base := 0; base < len(in); base += bs {
+		end := base + bs
+		if end > len(in) {
+			end = len(in)
+		}
+		for k := base; k < end; k++ {
+			out[k] = bxor8(in[k], blockE(self, k-base, prev))
+		}
+		if end-base == bs {
+			if enc {
+				prev = out[base:end]
+			} else {
+				prev = in[base:end]
+			}
+		}
+	}
+	return out
 }
